@@ -21,6 +21,11 @@ package router
 //@ requires [captured] config != nil
 //@ requires p != nil && p.Tags != nil
 //@ ensures result1 ==> result0 != nil
+// the routing decision (C19): no tag, no match; a tag that is not JSON is kept as a logical name; a tag that
+// is JSON routes only as a physical receiver (a non-nil receiver object), anything else does not route
+//@ ensures !has_key(p.Tags, config.Key) ==> !result1
+//@ ensures has_key(p.Tags, config.Key) && !jsonvalid(p.Tags[config.Key]) ==> result1 && isstring(result0) && strval(result0) == p.Tags[config.Key]
+//@ ensures has_key(p.Tags, config.Key) && jsonvalid(p.Tags[config.Key]) && result1 ==> isptrto(result0, "Recv")
 
 //@ func coerce
 //@ props C19
